@@ -289,10 +289,10 @@ Proof.
   specialize (Hf ltac:(lia)). lia.
 Qed.
 
-Lemma step_rd_publish : forall c s s' n lastp, Inv c s -> step c s (EvRdPublish n lastp) = Ok s' -> Inv c s'.
+Lemma step_rd_publish : forall c s s' n lastp, fixed c -> Inv c s -> step c s (EvRdPublish n lastp) = Ok s' -> Inv c s'.
 Proof.
-  intros c s s' n lastp HI H. start_step H hi HP HV. norm_guards.
-  match goal with G : overlap r && negb sv = false |- _ => rename G into Gov end.
+  intros c s s' n lastp [Hfx _] HI H. start_step H hi HP HV. norm_guards.
+  match goal with G : persist_first c && overlap r && negb sv = false |- _ => rewrite Hfx in G; simpl in G; rename G into Gov end.
   exists hi. split; [pframe s|].
   unfold running in *. proj. destruct (rc s) eqn:R; try (not_running HV).
   pose proof HV as HV0. destruct HV0 as [v_rd _ _ _ _ _ _ _ _ _ _ _ _ _ _ _].
